@@ -52,6 +52,13 @@ Proof.
   unfold ExtList, FList. cbn [wf_fmt]. split; [lia|]. split; [apply delim_Ext|].
   split; [reflexivity|apply wf_Ext].
 Qed.
+Lemma wf_ExtListU c : wf_fmt (ExtListU c).
+Proof.
+  unfold ExtListU. cbn [wf_fmt]. split; [lia|]. split; [apply delim_Ext|].
+  split; [reflexivity|apply wf_Ext].
+Qed.
+Lemma wf_OptExtListU c : wf_fmt (FOpt (ExtListU c)).
+Proof. cbn [wf_fmt]. split; [reflexivity|apply wf_ExtListU]. Qed.
 Lemma wf_OptExtList c : wf_fmt (FOpt (ExtList c)).
 Proof. cbn [wf_fmt]. split; [reflexivity|apply wf_ExtList]. Qed.
 Lemma wf_CertificateEntry : wf_fmt CertificateEntry /\ delim CertificateEntry.
@@ -64,6 +71,8 @@ Ltac wf_msg :=
   repeat first
     [ wf_step
     | match goal with
+      | |- wf_fmt (FOpt (ExtListU _)) => apply wf_OptExtListU
+      | |- wf_fmt (ExtListU _) => apply wf_ExtListU
       | |- wf_fmt (FOpt (ExtList _)) => apply wf_OptExtList
       | |- wf_fmt (ExtList _) => apply wf_ExtList
       | |- wf_fmt (Ext _) => apply wf_Ext
